@@ -128,6 +128,29 @@ func (e *jsonEnc) str(v value) {
 			e.lit(jsonQuoteNoHTML(s))
 		}
 	case *sym:
+		if ps := flattenConcat(s.t); e.hasRepeat(ps) {
+			// literals and repeat-strings are escaped exactly, other parts by contract
+			e.parts = append(e.parts, `"`)
+			for _, p := range ps {
+				if len(p) >= 2 && p[0] == '"' {
+					q := jsonQuote(parseSmtStr(p))
+					if !e.html {
+						q = jsonQuoteNoHTML(parseSmtStr(p))
+					}
+					e.parts = append(e.parts, q[1:len(q)-1])
+				} else if rec, ok := e.r.repeats[p]; ok {
+					q := jsonQuote(rec.lit)
+					if !e.html {
+						q = jsonQuoteNoHTML(rec.lit)
+					}
+					e.parts = append(e.parts, e.r.newRepeat(q[1:len(q)-1], rec.n, "escaped repeat"))
+				} else {
+					e.parts = append(e.parts, e.escTerm(p))
+				}
+			}
+			e.parts = append(e.parts, `"`)
+			return
+		}
 		if parts, ok := structuredString(s.t); ok {
 			// a concatenation of literals and formatted integers: escape the literals exactly
 			e.parts = append(e.parts, `"`)
@@ -145,21 +168,59 @@ func (e *jsonEnc) str(v value) {
 			e.parts = append(e.parts, `"`)
 			return
 		}
-		fn := "json_esc"
-		if !e.html {
-			e.r.declareOnce("json_esc_nohtml", "(declare-fun json_esc_nohtml (String) String)")
-			fn = "json_esc_nohtml"
-		}
-		esc := "(" + fn + " " + s.t + ")"
-		// length contract of encoding/json's string escaping
-		key := "jsonlen:" + esc
-		if _, ok := e.r.stash[key]; !ok {
-			e.r.stash[key] = true
-			e.r.assertPC("(>= (str.len " + esc + ") (str.len " + s.t + "))")
-			e.r.assertPC("(<= (str.len " + esc + ") (* 6 (str.len " + s.t + ")))")
-		}
-		e.parts = append(e.parts, `"`, strSym(esc), `"`)
+		e.parts = append(e.parts, `"`, e.escTerm(s.t), `"`)
 	}
+}
+
+// escTerm: the uninterpreted escaping of a string term with its length contract
+func (e *jsonEnc) escTerm(t string) value {
+	fn := "json_esc"
+	if !e.html {
+		e.r.declareOnce("json_esc_nohtml", "(declare-fun json_esc_nohtml (String) String)")
+		fn = "json_esc_nohtml"
+	}
+	esc := "(" + fn + " " + t + ")"
+	// length contract of encoding/json's string escaping
+	key := "jsonlen:" + esc
+	if _, ok := e.r.stash[key]; !ok {
+		e.r.stash[key] = true
+		e.r.assertPC("(>= (str.len " + esc + ") (str.len " + t + "))")
+		e.r.assertPC("(<= (str.len " + esc + ") (* 6 (str.len " + t + ")))")
+	}
+	return strSym(esc)
+}
+
+func (e *jsonEnc) hasRepeat(parts []string) bool {
+	for _, p := range parts {
+		if _, ok := e.r.repeats[p]; ok {
+			return true
+		}
+	}
+	return false
+}
+
+// flattenConcat returns the top-level operands of (str.++ ...) (recursively), or the term itself.
+func flattenConcat(t string) []string {
+	if !strings.HasPrefix(t, "(str.++ ") {
+		return []string{t}
+	}
+	e := parseSexp(t)
+	if e == nil || e.list == nil {
+		return []string{t}
+	}
+	var out []string
+	var walk func(x *sexp)
+	walk = func(x *sexp) {
+		if x.list != nil && len(x.list) > 0 && x.list[0].atom == "str.++" {
+			for _, c := range x.list[1:] {
+				walk(c)
+			}
+			return
+		}
+		out = append(out, x.String())
+	}
+	walk(e)
+	return out
 }
 
 func (e *jsonEnc) enc(t types.Type, v value) {
@@ -436,6 +497,10 @@ func (r *run) jsonAssign(fr *frame, t types.Type, dst *value, j interface{}) err
 	case *types.Basic:
 		switch {
 		case ut.Info()&types.IsString != 0:
+			if ss, ok := j.(jsonSymStr); ok {
+				*dst = catStr(ss.parts)
+				return nil
+			}
 			s, ok := j.(string)
 			if !ok {
 				return fmt.Errorf("json: cannot unmarshal %T into Go value of type %s", j, t)
@@ -729,6 +794,12 @@ func (r *run) jsonUnmarshal(fr *frame, data value, target value) iface {
 	}
 	// symbolic document
 	dt := strTerm(data)
+	if ok, err := r.jsonUnmarshalStructured(fr, dt, pt.Elem(), dst); ok {
+		if err != nil {
+			return r.newError(err.Error())
+		}
+		return iface{}
+	}
 	if !r.branch(boolSym("(json_valid " + dt + ")")) {
 		return r.newError("invalid character looking for beginning of value")
 	}
@@ -840,4 +911,96 @@ func structuredString(t string) ([]strPart, bool) {
 		}
 	}
 	return parts, hasSym
+}
+
+
+// jsonSymStr: a decoded JSON string that contains repeat-string holes
+type jsonSymStr struct{ parts []value }
+
+// jsonUnmarshalStructured handles a document that is a concatenation of literal JSON text and
+// repeat-strings of a JSON-string-safe byte (strings.Repeat with a symbolic count) standing
+// inside string tokens: the literal skeleton is decoded natively with placeholders.
+func (r *run) jsonUnmarshalStructured(fr *frame, dt string, t types.Type, dst *value) (bool, error) {
+	parts := flattenConcat(dt)
+	var sb strings.Builder
+	var holes []*sym
+	for _, p := range parts {
+		if len(p) >= 2 && p[0] == '"' {
+			sb.WriteString(parseSmtStr(p))
+			continue
+		}
+		rec, ok := r.repeats[p]
+		if !ok {
+			return false, nil
+		}
+		for i := 0; i < len(rec.lit); i++ {
+			if c := rec.lit[i]; c == '"' || c == '\\' || c < 0x20 || c >= 0x7f || c == '@' {
+				return false, nil
+			}
+		}
+		sb.WriteString(fmt.Sprintf("@@H%d@@", len(holes)))
+		holes = append(holes, &sym{p, SStr})
+	}
+	if len(holes) == 0 {
+		return false, nil
+	}
+	dec := json.NewDecoder(strings.NewReader(sb.String()))
+	dec.UseNumber()
+	var j interface{}
+	if err := dec.Decode(&j); err != nil || dec.More() {
+		return false, nil
+	}
+	bad := false
+	var subst func(x interface{}) interface{}
+	subst = func(x interface{}) interface{} {
+		switch v := x.(type) {
+		case string:
+			if !strings.Contains(v, "@@H") {
+				return v
+			}
+			var ps []value
+			for v != "" {
+				i := strings.Index(v, "@@H")
+				if i < 0 {
+					ps = append(ps, v)
+					break
+				}
+				if i > 0 {
+					ps = append(ps, v[:i])
+				}
+				j := strings.Index(v[i+3:], "@@")
+				if j < 0 {
+					bad = true
+					return v
+				}
+				k, err := strconv.Atoi(v[i+3 : i+3+j])
+				if err != nil || k >= len(holes) {
+					bad = true
+					return v
+				}
+				ps = append(ps, holes[k])
+				v = v[i+3+j+2:]
+			}
+			return jsonSymStr{ps}
+		case []interface{}:
+			for i := range v {
+				v[i] = subst(v[i])
+			}
+			return v
+		case map[string]interface{}:
+			for k, e := range v {
+				if strings.Contains(k, "@@H") {
+					bad = true
+				}
+				v[k] = subst(e)
+			}
+			return v
+		}
+		return x
+	}
+	j = subst(j)
+	if bad {
+		return false, nil
+	}
+	return true, r.jsonAssign(fr, t, dst, j)
 }
